@@ -28,6 +28,9 @@ def adversarial_payloads(rng):
         out.append("<challenge xmlns='%s'>%s</challenge>" % (sasl, b64(raw)))
     for q in ("auth-int, auth", "auth , auth-int", " auth", "auth-int,,auth", ", ,", "auth-conf auth", "\tauth"):
         out.append("<challenge xmlns='%s'>%s</challenge>" % (sasl, b64(('realm="r",nonce="n",qop="%s",charset=utf-8,algorithm=md5-sess' % q).encode())))
+    # over-padded / oddly padded base64 in challenges (the decoder's length computation)
+    for b in ("QUJDQUJD========", "QUJD====", "====", "QQ======", "QUJDQQ==QUJD", "QUJDQUJDQUJD=", "=QUJD", "QUJD=QUJ"):
+        out.append("<challenge xmlns='%s'>%s</challenge>" % (sasl, b))
     out.append("<challenge xmlns='%s'>%s</challenge>" % (sasl, "A" * 7))
     out.append("<stream:error/>")
     out.append("<stream:error><text xmlns='urn:ietf:params:xml:ns:xmpp-streams'/></stream:error>")
@@ -137,6 +140,18 @@ def mutation_lines(chk, n):
         cmds += ["rx " + pl.encode("latin1").hex(), "run", "run", "send " + H("<message id='u'/>"), "run", "is", "rxclose", "run", "run", "is",
                  "connect client", "run", "rx " + HDR.encode().hex(), "run", "is", "release"]
         lines.append(";".join(cmds))
+    # text pending at a stream restart (the element that triggers the restart and an unfinished text in ONE read),
+    # followed by a pretty-printed restarted stream
+    pretty = "<stream:features>\n <bind xmlns='urn:ietf:params:xml:ns:xmpp-bind'/>\n</stream:features>"
+    for trig, mech in (("<success xmlns='%s'/>" % NSURI["sasl"], "PLAIN"), ("<proceed xmlns='%s'/>" % NSURI["tls"], None)):
+        for pend in ("<message><body>pending text", "<message><body>p", "<message>x", "<iq><q>12"):
+            feats = negsim.features(mech is None, ["PLAIN"])
+            cmds = ["conn", "log", "jid " + H("user@example.com/res"), "pass " + H("secret"), "connect client", "run",
+                    "rx " + HDR.encode().hex(), "run", "run", "rx " + negsim.item_xml(feats).encode().hex(), "run", "run",
+                    "rx " + (trig + pend).encode().hex(), "run", "run",
+                    "rx " + HDR.encode().hex(), "run", "rx " + pretty.encode().hex(), "run", "run", "rx " + "\n \n".encode().hex(), "run",
+                    "is", "rxclose", "run", "run", "connect client", "run", "rx " + HDR.encode().hex(), "run", "rx " + "\n".encode().hex(), "run", "is", "release"]
+            lines.append(";".join(cmds))
     # malformed chunks that fill the 4096-byte read buffer (exactly, and around it), with the logger installed
     for stage in (0, 1, 2):
         pre = [HDR, negsim.item_xml(negsim.features(False, ["PLAIN"]))][:stage]
